@@ -498,6 +498,11 @@ class Response:
         if self._cookies is None:
             self._cookies = http_cookies.SimpleCookie()
 
+        # NOTE: SimpleCookie reuses the existing Morsel when a name is set
+        #   again; drop it so that attributes given to an earlier call
+        #   (Max-Age, Domain, Secure...) do not leak into this cookie.
+        self._cookies.pop(name, None)
+
         try:
             self._cookies[name] = value
         except http_cookies.CookieError as e:  # pragma: no cover
@@ -521,7 +526,7 @@ class Response:
                 gmt_expires = expires.astimezone(timezone.utc)
                 self._cookies[name]['expires'] = gmt_expires.strftime(fmt)
 
-        if max_age:
+        if max_age is not None:
             # RFC 6265 section 5.2.2 says about the max-age value:
             #   "If the remainder of attribute-value contains a non-DIGIT
             #    character, ignore the cookie-av."
@@ -626,6 +631,11 @@ class Response:
             self._cookies = http_cookies.SimpleCookie()
 
         self._cookies[name] = ''
+
+        # NOTE: SimpleCookie reuses the Morsel of an earlier set_cookie(); a
+        #   Max-Age inherited from it would take precedence over Expires
+        #   (RFC 6265, Section 5.3) and keep the cookie alive.
+        self._cookies[name]['max-age'] = ''
 
         # NOTE(Freezerburn): SimpleCookie apparently special cases the
         # expires attribute to automatically use strftime and set the
